@@ -98,20 +98,24 @@ def leak_site(script, c):
     return "?"
 
 
-def families(tier, seed):
+def families(tier, seed, ctx):
+    """every allocation of every operation is failed once: the number of allocations an operation makes is read off
+    the implementation's own run of the failure-free script (heap lines: live, attempts since the last heap line, ...)"""
+    from lib import vlib
     rng = random.Random(seed * 1000 + 17)
     scripts = []
-    # no failure
-    for k in range(5):
-        txt, n = lifecycle(random.Random(seed * 77 + k), kind=k)
-        scripts.append((f"life-{k}", txt))
-    # fail the n-th allocation of every operation
-    maxn = 14 if tier == "quick" else 40
-    for k in range(5):
-        _, nops = lifecycle(random.Random(seed * 77 + k), kind=k)
-        for op in range(nops):
-            ns = range(1, maxn + 1) if tier != "quick" else sorted(set([1, 2, 3] + [rng.randrange(1, 32) for _ in range(3)]))
-            for n in ns:
-                txt, _ = lifecycle(random.Random(seed * 77 + k), fail_at=n, fail_op=op, kind=k)
-                scripts.append((f"fail-k{k}-op{op}-n{n}", txt))
+    variants = [0] if tier == "quick" else [0, 1, 2]
+    for v in variants:
+        for k in range(5):
+            sd = seed * 77 + k + 1000 * v
+            txt, nops = lifecycle(random.Random(sd), kind=k)
+            scripts.append((f"life-{k}-v{v}", txt))
+            c, _, rc = vlib.run_c(ctx["cdir"], txt)
+            heaps = [l.split() for l in c if len(l.split()) > 2 and l.split()[1] == "heap"]
+            # heaps[0] precedes the first op; heaps[i+1] follows op i
+            for op in range(nops):
+                att = int(heaps[op + 1][3], 16) if rc == 0 and len(heaps) > op + 1 else 14
+                for n in range(1, min(att, 80) + 1):
+                    t2, _ = lifecycle(random.Random(sd), fail_at=n, fail_op=op, kind=k)
+                    scripts.append((f"fail-k{k}-v{v}-op{op}-n{n}", t2))
     return [Family("lifecycle-failnth", scripts, monitor=monitor)]
